@@ -77,6 +77,18 @@ CHECKS["C17"] = ("Coq theorems for ANY similarity function: did_you_mean equals 
          "Tied to the code by corpus receivers x unknown names at edit distance 0-3 from valid / skipped / enclosing names at every depth: each unknown-field leaf is resolved to its position through its location path and "
          "must carry exactly the argmax suggestion for the names valid there (strsim scores per case); repeated with the suggestions feature off.",
          "Coq proof (loop = argmax, induction over candidate lists and error trees, for any similarity function) + per-run differential correspondence incl. feature-off build")
+CHECKS["C08"] = ("Coq model Run/Outer.v of the attribute extractor the element-level derives generate (name match, bare / empty / name-value / malformed forms, forward arms, value populator) sharing the item loop and "
+         "parser state of Run/Recv.v. Theorems for ANY receiver declaration: the extractor equals the item loop over the CONCATENATION of the selected attributes' items plus the filter of forwarded attributes, so every "
+         "partition of the same items (bare / empty attributes interspersed, unrelated attributes anywhere) gives the identical state, value or errors; unselected, unforwarded attributes are inert whatever their tokens; "
+         "the attrs member is exactly the non-consumed attributes selected by forward_attrs, in order. Tied to the code by 69 compiled element-level receivers x elements whose items are split over 0-4 attributes "
+         "with noise attributes interleaved, each also run on its canonical single-attribute re-partition (outcomes compared span-insensitively) and on the forwarded-list specification.",
+         "Coq proof (fold over attributes = fold over concatenated items, for any receiver) + metamorphic twin and forwarding specification evaluated on the implementation's output; per-run differential correspondence")
+CHECKS["C16"] = ("Coq model Run/Outer.v of the magic members and body conversion (Data::try_from, Fields::try_from, generics mirror, base impls of the element traits, SpannedValue / WithOriginal / Result wrappers). Theorems: element-wise "
+         "conversion succeeds iff every element does and then keeps style and exactly one entry per field / variant in source order; otherwise it fails iff some element fails and reports ALL failures (leaf count = sum); "
+         "a union is an error; a field receiver's ident / vis / ty members are the field's own parts; built-in element targets are projections. Tied to the code by 69 compiled receivers declaring subsets of the magic members x "
+         "items of every struct style (0-6 fields), enums (0-6 mixed variants, discriminants), unions, generics with lifetimes / types / consts / where-clauses, every visibility form: pass-through members compared with the "
+         "element's parts read directly from syn, kind / style / count of data and fields, Fields<syn::Field> re-printed against the original tokens.",
+         "Coq proof (accumulation lemmas, for any element converters) + projection specification evaluated on the implementation's output; per-run differential correspondence")
 CHECKS["C01"] = (RECV + "The property is the executable per-FIELD specification Spec/C01.v `expected` (comprehensions over the input: no pass, no seen flags, no accumulator), evaluated in Coq on the value the real derived "
          "code returned for 150 compiled corpus receivers x receiver-directed mistake-free inputs; model and code are compared on every case. Theorems so far: initial state; the loop-invariant theorems are in progress (see DESIGN.md).",
          "Coq model + per-field executable specification evaluated on the implementation's output; per-run differential correspondence against compiled receivers")
